@@ -258,6 +258,7 @@ func Array[V any](arguments ...any) col.ArrayLike[V] {
 	// Initialize the possible arguments.
 	var notation = CDCN()
 	var size uint
+	var hasSize bool
 	var values []V
 	var sequence col.Sequential[V]
 	var source string
@@ -267,8 +268,10 @@ func Array[V any](arguments ...any) col.ArrayLike[V] {
 		switch actual := argument.(type) {
 		case int:
 			size = uint(actual)
+			hasSize = true
 		case uint:
 			size = actual
+			hasSize = true
 		case []V:
 			values = actual
 		case string:
@@ -314,6 +317,9 @@ func Array[V any](arguments ...any) col.ArrayLike[V] {
 			array.SetValue(index, value)
 			index++
 		}
+	case hasSize || values != nil:
+		// An explicit size of zero, or an empty Go array, is an empty array.
+		array = class.Make(0)
 	default:
 		panic("The constructor for an array requires an argument.")
 	}
